@@ -206,13 +206,27 @@ def run(ck, repo: Repo, tier: str):
     # ---- R6 CEM ------------------------------------------------------------------------------------------------------------
     q = "rl_blox.blox.cross_entropy_method.cem_update"
     fn = repo.func(q)
-    cfg = nf.cfg_of(fn)
-    sc = Scope(cfg, fn._module, _env(fn), q)
-    el = [n for n in cfg.nodes if n.kind == "stmt" and isinstance(n.ast, ast.Assign) and dotted(n.ast.targets[0]) == "elites"]
-    ck.need(len(el) == 1, f"{q}: elites definition not found")
-    e = nf.poly(el[0].ast.value, sc, el[0].id).canon()
-    ok = e == "take(samples, top_k(fitness, n_elite)[1], axis=0)"
-    ck.ob("R6-cem", q, "elites", ok, f"elites = {e}", "" if ok else "elites must be the n_elite candidates with the largest fitness", loc(fn._module, el[0].ast))
+    nf6 = NF(repo, inline_depth=3)
+    got = nf6.return_poly(q, _env(fn))
+    ck.need(got.elems is not None and len(got.elems) == 2, f"{q}: must return (mean, var)")
+    sc6 = Scope(None, fn._module, _env(fn), q)
+    elite_specs = ["jnp.take(samples, jax.lax.top_k(fitness, n_elite)[1], axis=0)", "samples[jax.lax.top_k(fitness, n_elite)[1]]", "samples[jnp.argsort(fitness)[-n_elite:]]", "samples[jnp.argsort(-fitness)[:n_elite]]"]
+    okm = any(got.elems[0] == nf6.poly(parse_expr(f"alpha * mean + (1.0 - alpha) * jnp.mean({e}, axis=0)"), sc6, None) for e in elite_specs)
+    okv = any(got.elems[1] == nf6.poly(parse_expr(f"alpha * var + (1.0 - alpha) * jnp.var({e}, axis=0)"), sc6, None) for e in elite_specs)
+    if okm and okv:
+        ck.ob("R6-cem", q, "elites", True, f"mean' = {got.elems[0].canon()[:130]}", "", loc(fn._module, fn))
+    else:
+        txt = got.elems[0].canon() + " " + got.elems[1].canon()
+        thresholded = any(t in txt for t in ("LtE(", "Lt(", "GtE(", "Gt(")) and "fitness" in txt
+        if thresholded:
+            ck.ob("R6-cem", q, "elites", False, f"mean' = {got.elems[0].canon()[:150]}",
+                  "the elite set is defined by a fitness threshold (comparison), not by selecting n_elite candidates: with tied fitness values more than n_elite candidates enter the update", loc(fn._module, fn))
+        elif "top_k(-fitness" in txt or "argsort(fitness)[:n_elite]" in txt or "argsort(-fitness)[-n_elite:]" in txt:
+            ck.ob("R6-cem", q, "elites", False, f"mean' = {got.elems[0].canon()[:150]}", "the update uses the n_elite candidates with the *smallest* fitness (CEM here is a maximiser)", loc(fn._module, fn))
+        elif "top_k" not in txt and "argsort" not in txt:
+            ck.ob("R6-cem", q, "elites", False, f"mean' = {got.elems[0].canon()[:150]}", "the update does not select the n_elite best candidates by fitness", loc(fn._module, fn))
+        else:
+            raise AnalysisError(f"{q}: elite selection `{got.elems[0].canon()[:100]}` is none of the enumerated forms (unrecognised idiom)")
     q = "rl_blox.blox.cross_entropy_method.optimize_cem"
     fn = repo.func(q)
     txt = "\n".join(ast.unparse(x) for x in fn.body)
